@@ -172,7 +172,7 @@ def oracle(case):
         # Termination budget. Only a literal longer than the 10-column floor can reach the
         # splitter's loop; metering costs ~15x, so it is applied where little width is left,
         # to very long literals, and to a hash-selected sixth of the rest.
-        nsteps, p, exceeded = steps.measure(lambda: values.pp(v, **cfg), cap=cap)
+        nsteps, p, exceeded = steps.measure(lambda: values.pp(v, guard=False, **cfg), cap=cap)
     else:
         p, exceeded = values.pp(v, **cfg), False
     if exceeded:
